@@ -55,12 +55,19 @@ class Gen:
                 out += self.words(1, 1)
         return out
 
-    def lst(self, depth):
+    def lst(self, depth, n=None):
+        """an item may own several sub-lists (of different kinds: '** b' then '*# c')."""
         r = self.rng
         kind = r.choice(["ul", "ol"])
         items = []
-        for _ in range(r.randint(1, 3)):
-            sub = self.lst(depth - 1) if depth > 0 and r.random() < 0.3 else None
+        for _ in range(n or r.choice([1, 2, 3, 1, 2, 3, 6])):
+            sub = None
+            if depth > 0 and r.random() < 0.3:
+                sub = [self.lst(depth - 1)]
+                if r.random() < 0.35:
+                    sub.append(self.lst(depth - 1))
+                    if sub[1][1] == sub[0][1]:      # same kind twice would be one list
+                        sub[1] = ("list", "ol" if sub[0][1] == "ul" else "ul", sub[1][2])
             items.append((self.inlines(1, allow_ref=False), sub))
         return ("list", kind, items)
 
@@ -72,6 +79,22 @@ class Gen:
         for ri in range(nrows):
             header = ri == 0 and r.random() < 0.6
             rows.append([(header, self.inlines(1, allow_ref=False)) for _ in range(ncols)])
+        k = r.random()
+        if k < 0.2:
+            # a cell made of blocks: a list (1-8 items), several paragraphs, or both
+            ri, ci = r.randrange(nrows), r.randrange(ncols)
+            blocks = []
+            for _ in range(r.randint(1, 2)):
+                blocks.append(self.lst(0, r.choice([1, 2, 3, 6, 7, 8])) if r.random() < 0.6 else ("para", self.inlines(1, allow_ref=False)))
+            rows[ri][ci] = (rows[ri][ci][0], {"blocks": blocks})
+            if r.random() < 0.3:        # the whole row made of list cells
+                rows[ri] = [(h, {"blocks": [self.lst(0, r.choice([2, 6, 7]))]}) for h, _ in rows[ri]]
+        elif k < 0.27:
+            # a tall cell (above the page-height heuristic of the cell splitter, below the property's 5000 characters),
+            # last in its row; table < 2500 characters
+            ri = r.randrange(nrows)
+            paras = [("para", self.words(18, 28)) for _ in range(r.randint(4, 6))]
+            rows[ri][-1] = (rows[ri][-1][0], {"blocks": paras})
         cap = self.words(1, 2) if r.random() < 0.3 else None
         return ("table", cap, rows)
 
@@ -156,8 +179,8 @@ class Render:
         lines = []
         for inl, sub in items:
             lines.append(mark + self.ch(" ", "") + self.inl(inl))
-            if sub is not None:
-                lines += self.lst(sub, mark)
+            for sb in sub or []:
+                lines += self.lst(sb, mark)
         return lines
 
     def table(self, node):
@@ -165,15 +188,24 @@ class Render:
         lines = ["{|" + self.ch(' class="wikitable"', "", ' border="1"')]
         if cap is not None:
             lines.append("|+ " + self.inl(cap))
-        for row in rows:
-            lines.append("|-")
+        for ri, row in enumerate(rows):
+            if ri > 0 or self.ch(True, True, False):     # the row marker before the first row is optional
+                lines.append("|-")
             header = row[0][0]
             sep = "!" if header else "|"
-            if self.ch(True, False):
+            blocky = any(isinstance(c[1], dict) for c in row)
+            if not blocky and self.ch(True, False):
                 lines.append(sep + " " + (" " + sep + sep + " ").join(self.inl(c[1]) for c in row))
             else:
                 for c in row:
-                    lines.append(sep + " " + self.inl(c[1]))
+                    if isinstance(c[1], dict):
+                        lines.append(sep)
+                        for bi, b in enumerate(c[1]["blocks"]):
+                            if bi and b[0] == "para":
+                                lines.append("")
+                            lines += self.block(b)
+                    else:
+                        lines.append(sep + " " + self.inl(c[1]))
         lines.append("|}")
         return lines
 
@@ -256,8 +288,8 @@ def denote(d):
         c["lists"] = ctx["lists"] + (kind,)
         for il, sub in items:
             inl(il, c)
-            if sub is not None:
-                lst(sub, c)
+            for sb in sub or []:
+                lst(sb, c)
 
     def block(b, ctx):
         k = b[0]
@@ -283,7 +315,11 @@ def denote(d):
                 for ci, (hdr, il) in enumerate(row):
                     c = dict(ctx)
                     c["cell"] = (ri, ci, hdr)
-                    inl(il, c)
+                    if isinstance(il, dict):
+                        for bl in il["blocks"]:
+                            block(bl, c)
+                    else:
+                        inl(il, c)
         elif k == "pre":
             c = dict(ctx)
             c["pre"] = True
